@@ -180,8 +180,8 @@ reader is entered, and responses are enqueued only by the reader or by handlers 
 theorem connect_notifies_first (c : Cfg) (hc : c.F = Gen.Lifecycle.facts) (s : St) (hr : Reachable c s) :
     s.wire.Pairwise NotifyFirst ∧ s.wire.Sublist s.log ∧
     ∀ pre f post, s.wire = pre ++ f :: post → f.isConnNotify = true → ∀ x ∈ pre, x.isResponse = false := by
-  have _hF : c.F.hooksBeforeReader = true := by rw [hc]; decide
-  have hw := winv_reachable hr
+  have hR : c.F.hooksBeforeReader = true := by rw [hc]; decide
+  have hw := winv_reachable hR hr
   have hsub : s.wire.Sublist s.log := List.Sublist.trans (List.sublist_append_left _ _) hw.sub
   have hp : s.wire.Pairwise NotifyFirst := List.Pairwise.sublist hsub hw.ord
   refine ⟨hp, hsub, fun pre f post heq hf x hx => ?_⟩
@@ -192,15 +192,27 @@ theorem connect_notifies_first (c : Cfg) (hc : c.F = Gen.Lifecycle.facts) (s : S
 
 /-- Everything a connect hook managed to queue while the channel had room is in the accepted-frame
 log ahead of every response: the log itself is ordered, not only its delivered part. -/
-theorem log_ordered (c : Cfg) (s : St) (hr : Reachable c s) : s.log.Pairwise NotifyFirst :=
-  (winv_reachable hr).ord
+theorem log_ordered (c : Cfg) (hc : c.F = Gen.Lifecycle.facts) (s : St) (hr : Reachable c s) :
+    s.log.Pairwise NotifyFirst :=
+  (winv_reachable (by rw [hc]; decide) hr).ord
 
 /-- **The writer goes with the task** (needs `AbortOnDrop`): once the task of an accepted connection is
 gone, its writer task has finished or has been aborted. -/
 theorem writer_torn_down_with_task (c : Cfg) (hc : c.F = Gen.Lifecycle.facts) (s : St) (hr : Reachable c s)
     (ha : s.accepted = true) (hd : s.phase = .done) : s.writer = .finished ∨ s.writer = .aborted := by
   have hA : c.F.abortOnDrop = true := by rw [hc]; decide
-  exact (rinv_reachable hA hr).gone ha hd
+  have hW : c.F.writerBeforeGuard = true := by rw [hc]; decide
+  exact (rinv_reachable hA hW hr).gone ha hd
+
+/-- **The writer runs for as long as the connection is served** (needs the writer to be spawned before
+the guard, i.e. before any hook or handler can queue a frame): in every state of an accepted
+connection the writer task has been spawned, so every queued frame can be taken (`writerSend` is
+enabled whenever the queue is non-empty and the writer has not failed). -/
+theorem writer_runs_while_served (c : Cfg) (hc : c.F = Gen.Lifecycle.facts) (s : St) (hr : Reachable c s)
+    (ha : s.accepted = true) : s.writer ≠ .notSpawned := by
+  have hA : c.F.abortOnDrop = true := by rw [hc]; decide
+  have hW : c.F.writerBeforeGuard = true := by rw [hc]; decide
+  exact (rinv_reachable hA hW hr).spawned ha
 
 /-- **Released before the writer is awaited** (needs the guard to be a local of the reader's block):
 while the task waits for its writer, the disconnect hooks have already run. -/
@@ -355,6 +367,19 @@ example : outcome (withFacts { Facts.good with cancelBeforeHooks := false }) (ho
 /-- guard at function scope: the task waits for its writer with the peer still registered -/
 example : (run (withFacts { Facts.good with guardInReaderBlock := false }) init (hooksOk ++ [.readerExit .close])).map
     (fun s => (s.phase, s.guard, s.token)) = some (.draining, .armed, false) := by decide
+
+/-- the reader started before the hook loops are over: a response overtakes a connect-hook notify -/
+example : (run (withFacts { Facts.good with hooksBeforeReader := false }) init
+      [.handshakeOk, .hookStart, .hookReturn, .earlyResponse 1, .hookStart, .hookNotify 0, .hookReturn,
+       .writerSend, .writerSend]).map (fun s => s.wire) = some [.response 1, .connNotify 1 0] := by decide
+
+/-- writer spawned only after the guard (after the block): a connect-hook panic loses every queued
+notify — no writer ever exists — and while the connection is served nothing reaches the wire -/
+example : (run (withFacts { Facts.good with writerBeforeGuard := false }) init
+      [.handshakeOk, .hookStart, .hookNotify 0, .hookPanic]).map (fun s => (s.writer, s.queue, s.wire)) =
+    some (.notSpawned, [.connNotify 0 0], []) := by decide
+example : run (withFacts { Facts.good with writerBeforeGuard := false }) init
+      [.handshakeOk, .hookStart, .hookNotify 0, .hookReturn, .writerSend] = none := by decide
 
 /-- no `AbortOnDrop`: an aborted task leaves its writer running -/
 example : (run (withFacts { Facts.good with abortOnDrop := false }) init (hooksOk ++ [.abort])).map
